@@ -77,7 +77,7 @@ func init() {
 		Cfg:        dsim.Config{MaxChaosSteps: 150, MaxStableSteps: 6000, Horizon: defaultCfg.Horizon},
 		Real:       []string{"util/rwc.PacketConn (WriteTo, rxPump, ReadFrom)", "stream/packet.Session (SendMsg, RecvMsg)"},
 		Stub:       []string{"the underlying io.ReadWriteCloser is a simulator-owned byte stream (dsim.ByteDir) with driver-chosen chunking"},
-		FaultKinds: []string{"fault:chunking", "fault:raw-zero-prefix", "fault:raw-overlimit-prefix", "fault:raw-huge-prefix", "fault:oversize-send", "fault:eof-mid-frame", "fault:reset", "fault:short-buffer", "fault:slow-reader", "fault:flow-controlled-write"},
+		FaultKinds: []string{"fault:chunking", "fault:raw-zero-prefix", "fault:raw-overlimit-prefix", "fault:raw-huge-prefix", "fault:oversize-send", "fault:eof-mid-frame", "fault:reset", "fault:short-buffer", "fault:slow-reader", "fault:flow-controlled-write", "fault:concurrent-write-calls"},
 	})
 }
 
